@@ -135,7 +135,7 @@ def body_assoc(cube, **kw):
     with notrace(), reclimit():
         spec = langs.L_INH()
         lg, lcf = langs.build_lang(spec)
-        types = ['G1', 'G2', 'A', 'O', 'O', 'O']
+        types = ['G1', 'G2', 'Am', 'O', 'O', 'O']
         m, pool = mb.build_model(lcf, types, names=['g1', 'g2', 'a', 'o', 'o2', 'o3'])
         rel = langs.rel_for(spec, types)
         decl = _assoc_decl(spec, kind)
